@@ -44,6 +44,8 @@ inductive Val where
   | opaque                          -- the `__retrydelays()` generator
   | str (codepoints : List Nat)     -- a Python str
   | dict (items : List (List Nat × Bytes))   -- a dict from str to bytes, in insertion order
+  | resources (ids : List Nat)      -- a collection of objects that have a close() method, identified by number
+  | resource (id : Nat)
   deriving Repr, DecidableEq
 
 inductive Expr where
@@ -98,6 +100,12 @@ inductive Stmt where
   | assert_ (e : Expr)                            -- assert e
   | clearBits (x : String) (c : Expr)             -- x &= ~c   (x, c >= 0:  x - (x & c))
   | decompress (x : String) (e : Expr)            -- x = zlib.decompress(e)
+  | suppress (body : Stmt)                        -- with contextlib.suppress(Exception): body
+  | forEach (x : String) (e : Expr) (body : Stmt) -- for x in e: body   (e a collection of resources, in its iteration order)
+  | closeRes (e : Expr)                           -- e.close()   (may raise)
+  | clearColl (x : String)                        -- x.clear()
+  | sockShutdown                                  -- self.sock.shutdown(socket.SHUT_RDWR)   (may raise)
+  | sockClose                                     -- self.sock.close()   (may raise)
   deriving Repr
 
 /-- what the running program can see of its surroundings -/
@@ -107,12 +115,18 @@ structure Cfg where
   blocking : Bool                   -- sock.gettimeout() is None
   isSub : Cls → Cls → Bool          -- issubclass, as extracted from the real classes
   unzip : Bytes → Option Bytes := fun _ => none   -- zlib.decompress (none = zlib.error)
+  closeRaises : Nat → Bool := fun _ => false      -- which resources' close() raises (and the two socket marks)
 
 structure World where
   stream : Bytes                    -- what the peer will still send
   sent : Bytes                      -- what the peer has accepted so far
   script : List Ev
+  log : List Nat                    -- effects on objects other than the socket's byte streams, in order:
+                                    -- resource id r = `r.close()` was called; `sockShutdownMark` / `sockCloseMark` = the socket calls
   deriving Repr, DecidableEq
+
+def sockShutdownMark : Nat := 1000000
+def sockCloseMark : Nat := 1000001
 
 abbrev Env := List (String × Val)
 
@@ -134,6 +148,7 @@ def truthy : Val → Option Bool
   | .bytes b => some (!b.isEmpty)
   | .str s => some (!s.isEmpty)
   | .dict d => some (!d.isEmpty)
+  | .resources r => some (!r.isEmpty)
   | _ => some true
 
 def eval (cfg : Cfg) (env : Env) : Expr → Option Val
@@ -346,7 +361,39 @@ def exec (cfg : Cfg) : Stmt → Nat → Option Val → Env → World → Res
       | some d => .normal ((x, .bytes d) :: env) w
       | none => .raise (.exc .zlibError false none) env w
     | _ => .stuck
-termination_by s fuel => (sizeOf s, fuel)
+  | .suppress body, fuel, cur, env, w =>
+    match exec cfg body fuel cur env w with
+    | .raise _ env w => .normal env w          -- every class of the fragment derives from Exception
+    | r => r
+  | .forEach _ _ _, 0, _, _, _ => .outOfFuel
+  | .forEach x e body, fuel + 1, cur, env, w =>
+    -- one element per unit of fuel: the collection to go is kept in the loop expression itself
+    match eval cfg env e with
+    | some (.resources []) => .normal env w
+    | some (.resources (r :: rest)) =>
+      match exec cfg body (fuel + 1) cur ((x, .resource r) :: env) w with
+      | .normal env w => exec cfg (.forEach x (.lit (.resources rest)) body) fuel cur env w
+      | .cont env w => exec cfg (.forEach x (.lit (.resources rest)) body) fuel cur env w
+      | .brk env w => .normal env w
+      | r => r
+    | _ => .stuck
+  | .closeRes e, _, _, env, w =>
+    match eval cfg env e with
+    | some (.resource r) =>
+      let w' := { w with log := w.log ++ [r] }
+      if cfg.closeRaises r then .raise (.exc .valueError false none) env w' else .normal env w'
+    | _ => .stuck
+  | .clearColl x, _, _, env, w =>
+    match env.lookup x with
+    | some (.resources _) => .normal ((x, .resources []) :: env) w
+    | _ => .stuck
+  | .sockShutdown, _, _, env, w =>
+    let w' := { w with log := w.log ++ [sockShutdownMark] }
+    if cfg.closeRaises sockShutdownMark then .raise (.exc .osError false none) env w' else .normal env w'
+  | .sockClose, _, _, env, w =>
+    let w' := { w with log := w.log ++ [sockCloseMark] }
+    if cfg.closeRaises sockCloseMark then .raise (.exc .osError false none) env w' else .normal env w'
+termination_by s fuel => (fuel, sizeOf s)
 
 /-- outcome of `receive_data` as the hand model reports it -/
 def toRecv : Res → Option (RecvResult × Bytes × List Ev)
@@ -366,9 +413,9 @@ def toSend : Res → Option (SendResult × Bytes × List Ev)
   | _ => none
 
 def runRecv (cfg : Cfg) (body : Stmt) (size : Nat) (stream : Bytes) (script : List Ev) : Res :=
-  exec cfg body (script.length + 2) none [("p1", .int size)] ⟨stream, [], script⟩
+  exec cfg body (script.length + 2) none [("p1", .int size)] ⟨stream, [], script, []⟩
 
 def runSend (cfg : Cfg) (body : Stmt) (data : Bytes) (script : List Ev) : Res :=
-  exec cfg body (script.length + 2) none [("p1", .bytes data)] ⟨[], [], script⟩
+  exec cfg body (script.length + 2) none [("p1", .bytes data)] ⟨[], [], script, []⟩
 
 end Pyro.PyIR
